@@ -469,6 +469,8 @@ func init() {
 		// compound finishers, associations, contexts, transaction identity (c13_world.go, c13_compound.go)
 		r.Exhaustive = false
 		c13xSuite(r, rng, tier)
+		// association GRAPHS with shared in-memory records, visit map (c13_graphs.go)
+		c13gSuite(r, rng, tier)
 	})
 	replayers["C13/hooks"] = func(r *Result, input json.RawMessage) {
 		var c c13Case
